@@ -28,6 +28,15 @@ func runFIFO(t *rapid.T) {
 	rec := ev.Get("fifo")
 	max := int64(rapid.SampledFrom([]int{1, 2, 5, 9, 16, 33, 64, 200, 1000}).Draw(t, "maxBytesPerFile"))
 	syncEvery := int64(rapid.SampledFrom([]int{1, 2, 3, 5, 8, 1000000}).Draw(t, "syncEvery"))
+	// one history in three runs with a periodic-sync timer of 2 ms and may sit idle across several of its periods
+	// (the relay's spool uses one second); the others keep it at one hour, so that syncs are count-driven
+	syncTimeout := time.Hour
+	if rapid.IntRange(0, 2).Draw(t, "shortSyncTimer") == 0 {
+		syncTimeout = 2 * time.Millisecond
+	}
+	dqh.SyncTimeout = syncTimeout
+	defer func() { dqh.SyncTimeout = time.Hour }()
+	idles := 0
 	dir := dqh.ScratchDir("c09")
 	defer os.RemoveAll(dir)
 	var q *dqh.Q
@@ -51,7 +60,7 @@ func runFIFO(t *rapid.T) {
 
 	var model [][]byte
 	var hs hist
-	hs.add("max=%d sync=%d", max, syncEvery)
+	hs.add("max=%d sync=%d syncTimer=%s", max, syncEvery, syncTimeout)
 	seq := uint32(0)
 	delivered := make(chan struct{}, 16)
 	hook := func(p string) {
@@ -117,6 +126,17 @@ func runFIFO(t *rapid.T) {
 			lastPutRolled = false
 			checkDepth("after get")
 		},
+		"idle": func(t *rapid.T) {
+			if syncTimeout > time.Second {
+				t.Skip("the sync timer never fires in this history")
+			}
+			// nothing happens for a few periods of the sync timer, whatever state the queue is in (drained in the middle
+			// of a segment, a message read ahead, right after a rollover)
+			time.Sleep(3 * syncTimeout)
+			idles++
+			hs.add("idle")
+			checkDepth("after an idle period")
+		},
 		"reopen": func(t *rapid.T) {
 			hs.add("reopen")
 			var err error
@@ -159,7 +179,7 @@ func runFIFO(t *rapid.T) {
 	nt := reopenPending || reopenAfterRoll || bigMsg
 	rec.Case(strings.Join(hs.ops, " "), nt && len(hs.ops) > 3,
 		fmt.Sprintf("reopen-with-readahead-pending=%v", reopenPending), fmt.Sprintf("reopen-right-after-rollover=%v", reopenAfterRoll),
-		fmt.Sprintf("msg-larger-than-segment=%v", bigMsg), fmt.Sprintf("rolled=%v", rolled), fmt.Sprintf("msg>=64KiB=%v", hugeMsg))
+		fmt.Sprintf("msg-larger-than-segment=%v", bigMsg), fmt.Sprintf("rolled=%v", rolled), fmt.Sprintf("msg>=64KiB=%v", hugeMsg), fmt.Sprintf("idle-across-sync-timer>0=%v", idles > 0))
 }
 
 func TestPropFIFO(t *testing.T) { rapid.Check(t, runFIFO) }
